@@ -11,11 +11,12 @@ typedef unsigned __int128 u128; typedef __int128 i128;
 // ======================================================================== hints (C04)
 struct HV { std::string key, what; };
 
-static std::string export_one_block(FilePreamble& fp, const std::vector<GenericQueryResponse>& qrs, const Pools& P, bool with_other) {
+static std::string export_one_block(FilePreamble& fp, const std::vector<GenericQueryResponse>& qrs, const Pools& P, bool with_other, bool with_aec = true, bool with_mm = true) {
     std::vector<std::string> outs;
     { CdnsExporter e(fp, MemSink{&outs}, CborOutputCompression::NO_COMPRESSION);
       for (auto& q : qrs) e.buffer_qr(q);
-      if (with_other) { e.buffer_aec(P.aec[1]); e.buffer_aec(P.aec[1]); e.buffer_mm(P.mm[0]); e.buffer_mm(P.mm[1]); }
+      if (with_other && with_aec) { e.buffer_aec(P.aec[1]); e.buffer_aec(P.aec[1]); }
+      if (with_other && with_mm) { e.buffer_mm(P.mm[0]); e.buffer_mm(P.mm[1]); e.buffer_mm(P.mm[3]); }   // mm[3] is earlier than every other record
       e.write_block(); }
     return outs.at(0);
 }
@@ -46,12 +47,12 @@ static void check_hints_second_set(uint32_t qr, uint32_t sig, uint8_t rrh, uint8
     BlockParameters bp0; bp0.storage_parameters.max_block_items = 100000; auto& h0 = bp0.storage_parameters.storage_hints; h0.query_response_hints = 0x1; h0.query_response_signature_hints = 0; h0.rr_hints = 0; h0.other_data_hints = 0;
     BlockParameters bp1; bp1.storage_parameters.max_block_items = 100000; bp1.storage_parameters.ticks_per_second = 1000; auto& h = bp1.storage_parameters.storage_hints; h.query_response_hints = qr; h.query_response_signature_hints = sig; h.rr_hints = rrh; h.other_data_hints = oth;
     std::vector<BlockParameters> bps = {bp0, bp1}; FilePreamble fp(bps); std::vector<std::string> outs; static const Pools P1 = make_pools(1000);
-    model::Exporter M({model::from(bp0), model::from(bp1)}); M.set_active(1); M.write_block(); M.buffer_qr(P1.qr[0], nullptr); M.buffer_qr(P1.qr[3], nullptr); M.buffer_aec(P1.aec[1], nullptr); M.buffer_mm(P1.mm[0], nullptr);
+    model::Exporter M({model::from(bp0), model::from(bp1)}); M.set_active(1); M.write_block(); M.buffer_qr(P1.qr[0], nullptr); M.buffer_qr(P1.qr[3], nullptr); M.buffer_aec(P1.aec[1], nullptr); M.buffer_mm(P1.mm[0], nullptr); M.buffer_mm(P1.mm[3], nullptr);
     if (M.cur.items() == 0) { R.outcome("second-set:nothing-storable"); return; }
-    auto fill = [&](CdnsBlock& b) { b.add_question_response_record(P1.qr[0]); b.add_question_response_record(P1.qr[3]); b.add_address_event_count(P1.aec[1]); b.add_malformed_message(P1.mm[0]); };
+    auto fill = [&](CdnsBlock& b) { b.add_question_response_record(P1.qr[0]); b.add_question_response_record(P1.qr[3]); b.add_address_event_count(P1.aec[1]); b.add_malformed_message(P1.mm[0]); b.add_malformed_message(P1.mm[3]); };
     { CdnsExporter e(fp, MemSink{&outs}, CborOutputCompression::NO_COMPRESSION);
       e.set_active_block_parameters(1); e.write_block();                                  // arm the internal block with set 1
-      e.buffer_qr(P1.qr[0]); e.buffer_qr(P1.qr[3]); e.buffer_aec(P1.aec[1]); e.buffer_mm(P1.mm[0]); e.write_block();
+      e.buffer_qr(P1.qr[0]); e.buffer_qr(P1.qr[3]); e.buffer_aec(P1.aec[1]); e.buffer_mm(P1.mm[0]); e.buffer_mm(P1.mm[3]); e.write_block();
       CdnsBlock b(bp1, 1); fill(b); e.write_block(b); b.clear(); fill(b); e.write_block(b); b.clear(); fill(b); e.write_block(b); }
     ref::RFile rf; try { rf = ref::read_file(outs.at(0)); } catch (std::exception& e) { out.push_back({"second-set|invalid-output", e.what()}); return; }
     if (rf.blocks.size() != 4) { out.push_back({"second-set|block-count", "expected 4 blocks, file has " + std::to_string(rf.blocks.size())}); return; }
@@ -71,9 +72,12 @@ static void check_hints(uint32_t qr, uint32_t sig, uint8_t rrh, uint8_t oth, con
     std::string bytes = export_one_block(fp, qrs, P, true);
     // model expectation (both directions: nothing excluded is present, everything enabled is present)
     model::Params mp = model::from(bp); model::Exporter M({mp});
-    for (auto& q : qrs) M.buffer_qr(q, nullptr); M.buffer_aec(P.aec[1], nullptr); M.buffer_aec(P.aec[1], nullptr); M.buffer_mm(P.mm[0], nullptr); M.buffer_mm(P.mm[1], nullptr);
+    for (auto& q : qrs) M.buffer_qr(q, nullptr); M.buffer_aec(P.aec[1], nullptr); M.buffer_aec(P.aec[1], nullptr); M.buffer_mm(P.mm[0], nullptr); M.buffer_mm(P.mm[1], nullptr); M.buffer_mm(P.mm[3], nullptr);
     bool any = M.cur.items() > 0;
     if (!any) { if (!bytes.empty()) out.push_back({"bytes-without-storable-record", "output not empty although no record is storable"}); R.outcome("nothing-storable"); return; }
+    // "stored only when their hint bit is set": a record kind that the hints reject leaves no trace at all - the file equals the one written without offering those records
+    if (!(oth & 1) && export_one_block(fp, qrs, P, true, true, false) != bytes) out.push_back({"rejected-records-change-the-output|mm", "with malformed messages excluded by the hints, offering malformed messages changes the file"});
+    if (!(oth & 2) && export_one_block(fp, qrs, P, true, false, true) != bytes) out.push_back({"rejected-records-change-the-output|aec", "with address events excluded by the hints, offering address events changes the file"});
     ref::RFile rf;
     try { rf = ref::read_file(bytes); } catch (std::exception& e) { out.push_back({"invalid-output", e.what()}); return; }
     if (rf.blocks.size() != 1) { out.push_back({"block-count", "expected one block"}); return; }
@@ -279,8 +283,22 @@ int main(int argc, char** argv) {
         for (uint64_t r : {1ULL, 2ULL, 3ULL, 7ULL, 10ULL, 1000ULL}) tasks.push_back({0, r});
         for (uint64_t r : {1ULL, 1000ULL, 1000000ULL, 1000000000ULL}) tasks.push_back({1, r});
         tasks.push_back({2, 0});
+        static const uint64_t RR[] = {1, 1000, 1000000, 1000000000}; for (uint64_t i = 0; i < 16; i++) if (i / 4 != i % 4) tasks.push_back({3, i});   // kind 3: a block object re-used for a file with another tick rate (rate = 4 * first + second)
         auto run_task = [&](const Task& t, Result& R) {
             std::vector<HV> out; uint64_t n = 0;
+            if (t.kind == 3) { // one CdnsBlock object: filled and written under parameters A (rate r1), cleared, given parameters B (rate r2) under the SAME index 0, filled and written to a second file
+                uint64_t r1 = RR[t.rate / 4], r2 = RR[t.rate % 4]; BlockParameters bpA, bpB; bpA.storage_parameters.ticks_per_second = r1; bpB.storage_parameters.ticks_per_second = r2; bpA.storage_parameters.max_block_items = bpB.storage_parameters.max_block_items = 100000;
+                std::vector<BlockParameters> va = {bpA}, vb = {bpB}; FilePreamble fa(va), fb(vb); std::vector<std::string> oa, ob; const Pools PA = make_pools(r1), PB = make_pools(r2);
+                CdnsBlock b(bpA, 0); model::Exporter MB({model::from(bpB)});
+                { CdnsExporter ea(fa, MemSink{&oa}, CborOutputCompression::NO_COMPRESSION); b.add_question_response_record(PA.qr[2]); b.add_question_response_record(PA.qr[0]); b.add_malformed_message(PA.mm[0]); ea.write_block(b); }
+                b.clear(); bool ok = b.set_block_parameters(bpB, 0); if (!ok) out.push_back({"block-reuse|set-parameters-refused", "set_block_parameters on a cleared block returned false"});
+                { CdnsExporter eb(fb, MemSink{&ob}, CborOutputCompression::NO_COMPRESSION); for (int q : {1, 2, 0, 4}) { b.add_question_response_record(PB.qr[q]); MB.buffer_qr(PB.qr[q], nullptr); } b.add_malformed_message(PB.mm[0]); MB.buffer_mm(PB.mm[0], nullptr); b.add_malformed_message(PB.mm[3]); MB.buffer_mm(PB.mm[3], nullptr); eb.write_block(b); MB.write_block(); }
+                std::string expect = "P{" + MB.outs[0].preamble + "}"; for (auto& bl : MB.outs[0].blocks) expect += "|B{" + bl.dump() + "}"; expect += "|eof";
+                std::string rd; try { rd = lib::file_dump(ref::read_file(ob.at(0))); } catch (std::exception& e) { rd = std::string("INVALID: ") + e.what(); } std::string ld = lib::file_dump(lib::read_bytes(ob.at(0)));
+                if (rd != expect) out.push_back({"block-reuse|independent-reader", "block object re-used under rate " + std::to_string(r2) + " after rate " + std::to_string(r1) + ": file differs from what was added: " + rd.substr(0, 60)});
+                if (ld != expect) out.push_back({"block-reuse|library-reader", "block object re-used under rate " + std::to_string(r2) + " after rate " + std::to_string(r1) + ": CdnsReader returns other records / times than were added"});
+                R.count("traces"); R.count("nontrivial"); R.count("blocks_validated");
+                for (auto& v : out) R.violation("time|" + v.key, v.what, "kind=3;rate=" + std::to_string(t.rate)); R.outcome(std::string("kind3") + (out.empty() ? ":ok" : ":viol")); return; }
             std::vector<std::pair<uint64_t, uint64_t>> pts;
             if (t.kind == 0) { for (uint64_t s = 0; s <= 3; s++) for (uint64_t k = 0; k < std::min<uint64_t>(t.rate, 10); k++) pts.push_back({s, k}); }
             else if (t.kind == 1) { uint64_t M = smax(t.rate); for (uint64_t s : {(uint64_t)0, (uint64_t)1, (uint64_t)0x7fffffff, (uint64_t)0x80000000ULL, (uint64_t)0xffffffffULL, (uint64_t)0x100000000ULL, M - 1, M}) for (uint64_t k : {(uint64_t)0, (uint64_t)1, t.rate - 1}) pts.push_back({s, k}); }
